@@ -5,7 +5,7 @@ from ..srcmodel import AnalysisError, site
 from ..astutil import (dotted, const, params, local_defs, is_self_attr, calls_named, same_expr, walk_shallow, resolve_local,
                        parent, ancestors, enclosing_function, OPAQUE)
 from ..dataflow import expand, expand_flow, call_arg
-from ..cfg import build
+from ..cfg import build, truthy_atom, cmp_atom
 from ..selftest import Mutant, Rewrite
 
 EXPLANATION = ("(R1) taint: the peer-supplied name reaches a path only as os.path.basename(name) placed directly into "
@@ -169,31 +169,24 @@ def r2(tree, rep):
 def r3(tree, rep):
     fn = tree.func(RX, "Receiver", "_extract_file")
     ps = params(fn)
-    g = build(fn)
+    g = build(fn, split=True)
     targets = g.call_nodes(lambda c: (isinstance(c.func, ast.Attribute) and c.func.attr == "extract") or dotted(c.func) == "os.chmod")
-    def guard(t):
-        neg = False
-        while isinstance(t, ast.UnaryOp) and isinstance(t.op, ast.Not):
-            neg = not neg
-            t = t.operand
+    def inside(t):
         if not (isinstance(t, ast.Call) and isinstance(t.func, ast.Attribute) and t.func.attr == "startswith" and len(t.args) == 1):
-            return None
+            return False
         subj = expand_flow(fn, t.func.value)
         pre = t.args[0]
+        if isinstance(pre, ast.Name):
+            pre = resolve_local(fn, pre)            # required_prefix = extract_dir + os.sep
         okp = isinstance(pre, ast.BinOp) and isinstance(pre.op, ast.Add) and isinstance(pre.left, ast.Name) and pre.left.id == "extract_dir" \
             and dotted(pre.right) in ("os.sep", "os.path.sep")
         oks = isinstance(subj, ast.Call) and dotted(subj.func) == "os.path.abspath" and isinstance(subj.args[0], ast.Call) \
             and dotted(subj.args[0].func) == "os.path.join" and len(subj.args[0].args) == 2 \
             and isinstance(subj.args[0].args[0], ast.Name) and subj.args[0].args[0].id == "extract_dir" \
             and dotted(subj.args[0].args[1]) == "info.filename"
-        return neg if (okp and oks) else None
-    tests = [(n, guard(g.stmt[n].test)) for n in g.nodes(lambda s: isinstance(s, ast.If))]
-    tests = [(n, neg) for n, neg in tests if neg is not None]
-    ok = len(tests) == 1 and len(targets) == 2 and "extract_dir" in ps
-    if ok:
-        n, neg = tests[0]
-        bad, good = ('T', 'F') if neg else ('F', 'T')
-        ok = g.branch_always_raises(n, bad) and g.branch_never_reaches(n, bad, targets) and not g.guarded_by([n], targets, good)
+        return okp and oks
+    contained = truthy_atom(inside)
+    ok = len(targets) == 2 and "extract_dir" in ps and g.when_always_raises(contained, False) and not g.only_when(targets, contained, True)
     rep.check("C05.R3", "_extract_file: extract and chmod are reachable only when abspath(join(extract_dir, member)) starts with "
               "extract_dir + os.sep; the failing edge raises", ok, site(fn, RX), key="C05.R3:guard",
               what="a zip member name can be extracted / chmod-ed outside the destination directory")
@@ -216,40 +209,38 @@ def r3(tree, rep):
 
 def r4(tree, rep):
     fn = tree.func(RX, "Receiver", "_decide_destname")
-    g = build(fn)
-    sets_true = g.nodes(lambda s: isinstance(s, ast.Assign) and any(isinstance(t, ast.Name) and t.id == "overwrite_allowed" for t in s.targets)
-                        and const(s.value) is True)
-    sets_other = g.nodes(lambda s: isinstance(s, ast.Assign) and any(isinstance(t, ast.Name) and t.id == "overwrite_allowed" for t in s.targets)
-                         and const(s.value) is not True)
-    of_tests = [n for n in g.nodes(lambda s: isinstance(s, ast.If)) if _args_attr(g.stmt[n].test, "output_file")]
-    ok = bool(sets_true) and bool(of_tests) and not g.guarded_by(of_tests, sets_true, 'T') \
-        and all(const(g.stmt[n].value) is False for n in sets_other) and len(sets_other) == 1
+    g = build(fn, split=True)
+
+    def is_output_file(e):
+        return _args_attr(resolve_local(fn, e) if isinstance(e, ast.Name) else e, "output_file")
+    with_of = truthy_atom(is_output_file)
+    sets = g.nodes(lambda s: isinstance(s, ast.Assign) and any(isinstance(t, ast.Name) and t.id == "overwrite_allowed" for t in s.targets))
+    sets_maybe_true = [n for n in sets if const(g.stmt[n].value) is not False]
+    ok = bool(sets_maybe_true) and len(sets) > len(sets_maybe_true) and not g.only_when(sets_maybe_true, with_of, True) \
+        and bool(g.cond_edges(with_of, True))
     rep.check("C05.R4", "overwrite_allowed becomes True only under --output-file", ok, site(fn, RX), key="C05.R4:overwrite-only-with-output-file",
               what="an existing destination can be overwritten without --output-file")
-    ex_tests = [n for n in g.nodes(lambda s: isinstance(s, ast.If)) if isinstance(g.stmt[n].test, ast.Call)
-                and dotted(g.stmt[n].test.func) == "os.path.exists" and isinstance(g.stmt[n].test.args[0], ast.Name)
-                and g.stmt[n].test.args[0].id == "abs_destname"]
-    ow_tests = [n for n in g.nodes(lambda s: isinstance(s, ast.If)) if isinstance(g.stmt[n].test, ast.Name) and g.stmt[n].test.id == "overwrite_allowed"]
-    ok = len(ow_tests) == 1 and bool(ex_tests)
-    if ok:
-        # the final existence check (the one that dominates the overwrite test) : not-allowed edge raises
-        last = [e for e in ex_tests if ow_tests[0] in g.reach(g.branch_targets(e, 'T'))
-                and not ((set(ex_tests) - {e}) & g.reach(g.branch_targets(e, 'T') + g.branch_targets(e, 'F')))]
-        ok = len(last) == 1 and g.branch_always_raises(ow_tests[0], 'F') and g.must_pass(last) \
-            and g.must_pass(ow_tests, start=g.branch_targets(last[0], 'T'), to=[g.exit])
-        if ok:
-            # that existence check happens after the last assignment of abs_destname
-            assigns = g.nodes(lambda s: isinstance(s, ast.Assign) and any(isinstance(t, ast.Name) and t.id == "abs_destname" for t in s.targets))
-            ok = not (set(g.reach(g.branch_targets(last[0], 'T') + g.branch_targets(last[0], 'F'))) & set(assigns))
+    exists = truthy_atom(lambda e: isinstance(e, ast.Call) and dotted(e.func) == "os.path.exists" and len(e.args) == 1
+                         and isinstance(e.args[0], ast.Name) and e.args[0].id == "abs_destname")
+    allowed = truthy_atom(lambda e: isinstance(e, ast.Name) and e.id == "overwrite_allowed")
+    assigns = g.nodes(lambda s: isinstance(s, ast.Assign) and any(isinstance(t, ast.Name) and t.id in ("abs_destname", "overwrite_allowed")
+                                                               for t in s.targets))
+    # "does not exist" / "overwriting allowed" as established on the FINAL path: no assignment of the path or the flag afterwards
+    final_free = [(x, y, l) for (x, y, l) in g.cond_edges(exists, False) if not (g.reach([y]) & set(assigns))]
+    final_allowed = [(x, y, l) for (x, y, l) in g.cond_edges(allowed, True) if not (g.reach([y]) & set(assigns))]
+    final_denied = [(x, y, l) for (x, y, l) in g.cond_edges(allowed, False) if not (g.reach([y]) & set(assigns))]
+    # the normal exit is reached only over "does not exist" or "overwriting allowed" (anything else must have raised)
+    ok = bool(final_free) and bool(final_allowed) and bool(final_denied) \
+        and g.exit not in g.reach(g.entry, avoid_edges=set(final_free) | set(final_allowed), explicit_only=True)
     rep.check("C05.R4", "an existing destination makes _decide_destname raise unless overwriting was allowed (checked on the final path)", ok,
               site(fn, RX), key="C05.R4:exists-raises", what="a pre-existing destination is silently reused")
-    if len(ow_tests) == 1:
-        rm = g.call_nodes(lambda c: dotted(c.func) == "self._remove_existing")
-        acc = [n for n in g.nodes(lambda s: isinstance(s, ast.If)) if _args_attr(g.stmt[n].test, "accept_file")]
-        ok = bool(rm) and bool(acc) and not g.guarded_by(ow_tests, rm, 'T') and all(not g.branch_never_reaches(a, 'T', rm) for a in acc) \
-            and all(g.must_pass(rm, start=g.branch_targets(a, 'T'), to=[g.exit], explicit_only=True) for a in acc)
-        rep.check("C05.R4", "with --accept-file an allowed overwrite goes through _remove_existing (which refuses directories)", ok, site(fn, RX),
-                  key="C05.R4:accept-file-remove")
+    rm = g.call_nodes(lambda c: dotted(c.func) == "self._remove_existing")
+    accept = truthy_atom(lambda e: _args_attr(e, "accept_file"))
+    acc_edges = g.cond_edges(accept, True)
+    ok = bool(rm) and bool(acc_edges) and not g.only_when(rm, allowed, True) \
+        and all(g.exit not in g.reach([y], avoid_nodes=set(rm), explicit_only=True) for (x, y, l) in acc_edges)
+    rep.check("C05.R4", "with --accept-file an allowed overwrite goes through _remove_existing (which refuses directories)", ok, site(fn, RX),
+              key="C05.R4:accept-file-remove")
     re_fn = tree.func(RX, "Receiver", "_remove_existing")
     g2 = build(re_fn)
     rm = g2.call_nodes(lambda c: dotted(c.func) in ("os.remove", "os.unlink"))
@@ -260,20 +251,28 @@ def r4(tree, rep):
     rep.check("C05.R4", "_remove_existing removes only regular files and raises for an existing directory", ok, site(re_fn, RX),
               key="C05.R4:_remove_existing", what="an existing directory can be deleted / silently kept as the destination")
     ap = tree.func(RX, "Receiver", "_ask_permission")
-    g3 = build(ap)
-    brk = g3.nodes(lambda s: isinstance(s, ast.Break))
+    g3 = build(ap, split=True)
     rm3 = g3.call_nodes(lambda c: dotted(c.func) == "self._remove_existing")
-    ex3 = [n for n in g3.nodes(lambda s: isinstance(s, ast.If)) if isinstance(g3.stmt[n].test, ast.Call)
-           and dotted(g3.stmt[n].test.func) == "os.path.exists" and is_self_attr(g3.stmt[n].test.args[0], "abs_destname")]
-    ok = len(brk) >= 1 and len(rm3) == 1 and len(ex3) == 1 and not g3.precedes(ex3, brk) \
-        and g3.must_pass(rm3, start=g3.branch_targets(ex3[0], 'T'), to=brk, explicit_only=True)
+    exists3 = truthy_atom(lambda e: isinstance(e, ast.Call) and dotted(e.func) == "os.path.exists" and len(e.args) == 1
+                          and is_self_attr(e.args[0], "abs_destname"))
+    accept3 = truthy_atom(lambda e: _args_attr(e, "accept_file"))
+    ex_edges = g3.cond_edges(exists3, True)
+    # without --accept-file the normal exit is reached only past the existence test, and from its true edge only through _remove_existing
+    avoid = set(g3.cond_edges(accept3, True)) | set(g3.cond_edges(exists3, True)) | set(g3.cond_edges(exists3, False))
+    ok = len(rm3) == 1 and bool(ex_edges) and g3.exit not in g3.reach(g3.entry, avoid_edges=avoid, explicit_only=True) \
+        and all(g3.exit not in g3.reach([y], avoid_nodes=set(rm3), explicit_only=True) for (x, y, l) in ex_edges)
     rep.check("C05.R4", "interactive confirmation: an existing destination goes through _remove_existing before the transfer proceeds", ok,
               site(ap, RX), key="C05.R4:_ask_permission:remove-existing",
               what="without --accept-file an existing directory named by --output-file/.. is no longer refused")
-    yes = [n for n in g3.nodes(lambda s: isinstance(s, ast.If)) if any(isinstance(c, ast.Call) and isinstance(c.func, ast.Attribute)
-                                                                     and c.func.attr == "startswith" and const(c.args[0]) == "y" for c in ast.walk(g3.stmt[n].test))]
+    says_yes = truthy_atom(lambda e: isinstance(e, ast.Call) and isinstance(e.func, ast.Attribute) and e.func.attr == "startswith"
+                           and len(e.args) == 1 and const(e.args[0]) == "y")
+    is_len_ok = lambda e: isinstance(e, ast.Call) and dotted(e.func) == "len" and len(e.args) == 1
+    je1 = cmp_atom(is_len_ok, lambda e: const(e) == 0)
+    je2 = cmp_atom(lambda e: isinstance(e, ast.Name), lambda e: const(e) == "")
+    just_enter = lambda e: je1(e) or je2(e)
     rs = g3.nodes(lambda s: isinstance(s, ast.Raise))
-    ok = len(yes) == 1 and bool(rs) and g3.branch_never_reaches(yes[0], 'F', brk) and not g3.guarded_by(yes, brk, 'T')
+    avoid = set(g3.cond_edges(accept3, True)) | set(g3.cond_edges(says_yes, True)) | set(g3.cond_edges(just_enter, True))
+    ok = bool(rs) and bool(g3.cond_edges(says_yes, True)) and g3.exit not in g3.reach(g3.entry, avoid_edges=avoid, explicit_only=True)
     rep.check("C05.R4", "the transfer proceeds only on a yes answer; anything else raises TransferRejectedError", ok, site(ap, RX),
               key="C05.R4:_ask_permission:answer")
     for m in ("_handle_file", "_handle_directory"):
